@@ -114,6 +114,8 @@ pub struct ConnMon {
     /// this connection's CONNACK resumed the session with a Receive Maximum below the number of
     /// publishes then in flight (the broker shrank its window under the client)
     pub window_below_inflight: bool,
+    /// the identifier-bearing PUBLISH / PUBREL that was accepted completely just now (until the next offer)
+    pub just_done: Option<Vec<u8>>,
 }
 
 #[derive(Clone, Debug, Hash, PartialEq, Eq)]
@@ -519,6 +521,20 @@ impl Oracle {
         }
         // at a packet boundary: the offer must start with one whole well-formed packet
         let (decoded, tolerated) = decode_lenient(buf);
+        if let Some(done) = self.conns[c].just_done.take() {
+            if decoded.is_err() && buf.len() < done.len() && done.ends_with(buf) {
+                let (prop, kind) = match done[0] >> 4 {
+                    3 if (done[0] >> 1) & 3 == 1 => ("C02", "publish1"),
+                    _ => ("C03", "publish2"),
+                };
+                self.flag(
+                    prop,
+                    "Q3-partly-sent-again-on-connection",
+                    kind,
+                    format!("{} was accepted completely on connection {}; the next buffer offered is its last {} bytes again: {}", mr::hex_short(&done), c, buf.len(), mr::hex_short(buf)),
+                );
+            }
+        }
         if let Some((class, why)) = tolerated {
             let ty = buf[0] >> 4;
             // the DUP bit (and nothing else) on a SUBSCRIBE / UNSUBSCRIBE: named by where it happens, so that the
@@ -1113,7 +1129,11 @@ impl Oracle {
     /// The last byte of a packet was accepted by the transport: the broker has it.
     fn packet_completed(&mut self, c: usize, pkt: &CPacket, raw: &[u8]) {
         self.conns[c].packets += 1;
-        let _ = raw;
+        self.conns[c].just_done = match pkt {
+            CPacket::Publish(p) if p.qos > 0 => Some(raw.to_vec()),
+            CPacket::Ack(a) if a.kind == AckKind::PubRel => Some(raw.to_vec()),
+            _ => None,
+        };
         match pkt {
             CPacket::Disconnect { .. } => self.conns[c].disconnect_done = true,
             CPacket::Publish(p) if p.qos > 0 => {
